@@ -96,6 +96,7 @@ func Run(cfg hx.Config) error {
 	h.sectionInterleave()
 	h.sectionHistOps()
 	h.sectionRhelFull()
+	h.sectionVexGenerated()
 	h.sectionJoinSweep()
 	h.sectionKnown()
 	return nil
